@@ -16,7 +16,8 @@ CHECKS = {
             "products) and re-derived exactly with Fractions by the oracle.",
             "Coq proof (substring / window lemmas) + extraction-based correspondence", "5 C12"),
     "C13": ("Theorems for every k >= 1 and every vertex (index<->k-mer bijection, successor/predecessor arithmetic = "
-            "shift-append on k-mers, column layout, legality of built graphs), kernel-checked; tied to dsw by running the "
+            "shift-append on k-mers, column layout, legality of built graphs), kernel-checked; the successor / predecessor "
+            "arithmetic is regenerated from the current source on every run and re-proved equal to the model; tied to dsw by running the "
             "extracted model and the implementation on every vertex of every order up to 5 (7 thorough) plus samples to k = 12.",
             "Coq proof (induction on k-mers, Z arithmetic) + extraction-based correspondence check", "5 C13"),
     "C01": ("Theorems: on every accessor that is well formed from the start vertex (any arc subset, out-degrees 1..4 mixed), for "
@@ -105,13 +106,19 @@ CHECKS = {
             "row-permutation shape are run-time checks of create_random_shuffles (partial on the RNG, as DESIGN.md section 7 says).",
             "Coq proof (sorting/permutation lemmas, exhaustive vm_compute sweep) + correspondence + run-time table checks", "5 C18"),
     "C15": ("Theorems for decimal strings of ANY length and all ten operand digits: the digit-serial add / subtract / multiply "
-            "/ divide loops return the canonical decimal string of the exact result; tied to dsw/operation.py by the "
-            "correspondence check on shaped operands (carry and borrow chains up to 1400 digits).",
-            "Coq proof (induction over digit lists with carry/borrow/remainder invariants) + extraction-based correspondence", "5 C15"),
+            "/ divide loops return the canonical decimal string of the exact result; tied to dsw/operation.py twice: the four "
+            "functions are REGENERATED from the current source on every run as terms of a deep embedding of Python (MiniPy.v) and "
+            "proved, for all inputs, to compute what the model computes (C15_*_source theorems about the source text), and the "
+            "correspondence check runs model and implementation on shaped operands (carry and borrow chains up to 1400 digits).",
+            "Coq proof (induction over digit lists with carry/borrow/remainder invariants; program-equivalence proofs over a "
+            "regenerated deep embedding) + extraction-based correspondence", "5 C15"),
     "C16": ("Theorems for bit arrays / DNA strings / numbers of any size: round trips at the original width, agreement of the "
             "str and int code paths (also when truncating), fixed-width rendering with 0/A padding; fuel of the while loops "
-            "proved sufficient; tied to dsw by the correspondence check on both code paths.",
-            "Coq proof (fuel-bounded loops refined to radix expansion) + extraction-based correspondence", "5 C16"),
+            "proved sufficient; tied to dsw twice: the converters and their bignum callees are REGENERATED from the "
+            "current source on every run (deep embedding MiniPy.v) and proved equal to the model for all inputs, giving the round "
+            "trips for the source text (C16_*_source), and the correspondence check compares both code paths.",
+            "Coq proof (fuel-bounded loops refined to radix expansion; program-equivalence proofs over a regenerated deep "
+            "embedding) + extraction-based correspondence", "5 C16"),
     "C19": ("Theorems for every legal accessor of order k >= 1 with its own latter map and every sequence of calls (any flags) up to "
             "the first call that raises: each returning call removes exactly one existing arc, of maximum intersection score, "
             "changes no other entry, and hands back a legal accessor together with exactly its latter map; scores are "
